@@ -157,7 +157,9 @@ func (x *xctx) isExecAssign(s ast.Stmt) (recv ast.Expr, errVar, flagVar string, 
 // same, also returning the variable that receives the rule's value
 func (x *xctx) isExecAssignV(s ast.Stmt) (recv ast.Expr, valVar, errVar, flagVar string, ok bool) {
 	as, isAs := s.(*ast.AssignStmt)
-	if !isAs || len(as.Lhs) != 3 || len(as.Rhs) != 1 {
+	// a DEFINITION (:=): the value, error and returned-flag of one rule execution are variables of their own — with a plain
+	// assignment the goroutines of a fan-out would share the enclosing function's variables
+	if !isAs || as.Tok != token.DEFINE || len(as.Lhs) != 3 || len(as.Rhs) != 1 {
 		return
 	}
 	call, isCall := as.Rhs[0].(*ast.CallExpr)
